@@ -170,6 +170,9 @@ def jobs(tier):
             add(c10.Speed(n), "speed", light)
             add(c12.Attenuated(n, "range", False), "simple", light)
             add(c12.Attenuated(n, "range", True), "simple", ("ndarray",))
+        if n in (2, 3):
+            # fixes less than a second apart: 0 whole seconds elapsed must not turn a present position into MISSING
+            add(c10.Speed(n, frac=True, min_step=0), "speed", ("ndarray",))
         if n <= 3:
             add(c12.Attenuated(n, "std", False), "simple", ("ndarray", "masked"))
             add(c12.Attenuated(n, "std", True), "simple", ("ndarray",))
